@@ -292,6 +292,118 @@ def renderL (ci : SCls → ClsInfo) (f : Fmt) (pname : Option PStr) : List Node 
   | n :: ns => renderSpec ci f pname n ++ renderL ci f pname ns
 end
 
+/-! ### which formatter `decode` uses: `PageElement.formatter_for_name`, `PageElement._is_xml` (bs4/element.py) -/
+
+/-- `PageElement._is_xml` (a loop up the parent chain): `known_xml` of the element if it is not `None`, else the parent's answer; at an element
+    without parent `getattr(self, "is_xml", False)` (`rootAttr`). `chain` = the `known_xml` values from the element up
+    to the root of its tree. -/
+def isXmlImpl (rootAttr : Bool) : List (Option Bool) → Bool
+  | [] => rootAttr
+  | some b :: _ => b
+  | none :: rest => isXmlImpl rootAttr rest
+
+/-- spec: the first `known_xml` on the way up that is not `None`, else the root's `is_xml` attribute -/
+def isXmlSpec (rootAttr : Bool) (chain : List (Option Bool)) : Bool :=
+  match chain.find? Option.isSome with
+  | some (some b) => b
+  | _ => rootAttr
+
+/-- the `formatter` argument of `decode`/`encode`/`decode_contents`: a `Formatter` object, a callable (used as the
+    entity substitution function of a new formatter), or a registry key (a name or `None`) -/
+inductive FmtArg where
+  | obj (f : Fmt)
+  | fn (g : PStr → PStr)
+  | name (n : Option PStr)
+
+/-- `Fmt` or the `KeyError` of `registry[formatter_name]` -/
+inductive FmtRes where
+  | ok (f : Fmt)
+  | keyError
+
+/-- the environment of the lookup: both registries and the constructor defaults of `HTMLFormatter(entity_substitution=fn)`
+    / `XMLFormatter(entity_substitution=fn)`, indexed by `_is_xml`; `fnOf` turns a registry entry's function code
+    into the function -/
+structure FmtEnv where
+  registry : Bool → List (Option PStr × FmtSpec)
+  ctorDefaults : Bool → FmtSpec
+  fnOf : Nat → Option (PStr → PStr)
+
+def FmtEnv.mk' (e : FmtEnv) (s : FmtSpec) : Fmt := ⟨e.fnOf s.substKind, s.voidPrefix, s.cdataTags, s.emptyBool⟩
+
+def lookupReg (reg : List (Option PStr × FmtSpec)) (k : Option PStr) : Option FmtSpec :=
+  match reg with
+  | [] => none
+  | (a, b) :: rest => if a = k then some b else lookupReg rest k
+
+/-- `PageElement.formatter_for_name(formatter_name)` on an element with `_is_xml = isXml` -/
+def formatterForName (e : FmtEnv) (isXml : Bool) : FmtArg → FmtRes
+  | .obj f => .ok f                                            -- isinstance(formatter_name, Formatter)
+  | .fn g =>                                                   -- callable: c(entity_substitution=formatter_name)
+    let d := e.ctorDefaults isXml
+    .ok ⟨some g, d.voidPrefix, d.cdataTags, d.emptyBool⟩
+  | .name n =>                                                 -- registry[formatter_name]
+    match lookupReg (e.registry isXml) n with
+    | some s => .ok (e.mk' s)
+    | none => .keyError
+
+/-- `decode(formatter=arg)` with its formatter resolution; `none` = `KeyError` -/
+def decodeTop (ci : SCls → ClsInfo) (e : FmtEnv) (rootAttr : Bool) (chain : List (Option Bool)) (arg : FmtArg)
+    (n : Node) : Option PStr :=
+  match formatterForName e (isXmlImpl rootAttr chain) arg with
+  | .ok f => some (decodeNode ci f n)
+  | .keyError => none
+
+/-! ### `output_ready` called on a string directly (bs4/element.py `NavigableString.output_ready`,
+    `PreformattedString.output_ready`, `PageElement.format_string`) -/
+
+/-- `s.output_ready(formatter)`; `arg = none` is `formatter=None`. `chain`/`rootAttr` decide the string's own `_is_xml`
+    (a string has `known_xml = None`, so its parents decide). `none` = the `KeyError` of an unknown registry key.
+    * `format_string`: `None` → the string unchanged; anything that is not a `Formatter` → `formatter_for_name`;
+      then `formatter.substitute(s)`.
+    * a preformatted class calls `format_string` only for its side effects (the lookup can still raise) and returns
+      `PREFIX + self + SUFFIX`. -/
+def strOutputReady (ci : SCls → ClsInfo) (e : FmtEnv) (rootAttr : Bool) (chain : List (Option Bool))
+    (arg : Option FmtArg) (pname : Option PStr) (c : SCls) (s : PStr) : Option PStr :=
+  let k := ci c
+  match arg with
+  | none => some (k.pre ++ s ++ k.suf)
+  | some a =>
+    match formatterForName e (isXmlImpl rootAttr chain) a with
+    | .keyError => none
+    | .ok f => some (if k.preformatted then k.pre ++ s ++ k.suf else k.pre ++ substitute f pname s ++ k.suf)
+
+/-! ### `Doctype.for_name_and_ids` / `_string_for_name_and_ids` (bs4/element.py) -/
+
+/-- `value = name or ""`; `' PUBLIC "%s"' % pub_id` (+ `' "%s"' % system_id`) or `' SYSTEM "%s"' % system_id` -/
+def doctypeString (name pub sys : Option PStr) : PStr :=
+  let v := name.getD []
+  match pub with
+  | some pb =>
+    let v := v ++ [32, 80, 85, 66, 76, 73, 67, 32, 34] ++ pb ++ [34]
+    match sys with
+    | some sy => v ++ [32, 34] ++ sy ++ [34]
+    | none => v
+  | none =>
+    match sys with
+    | some sy => v ++ [32, 83, 89, 83, 84, 69, 77, 32, 34] ++ sy ++ [34]
+    | none => v
+
+/-! ### spec of the event stream: the structural recursion over the tree -/
+
+mutual
+/-- the events of one node: `EMPTY` for a childless tag that can be empty, else `START`, the children's events, `END`;
+    `STRING` for a string. Items as `flatten` numbers them. -/
+def specEvents (par : Option Nat) (pname : Option PStr) (k : Nat) : Node → List (Ev × Item)
+  | .tag i kids =>
+    if kids.isEmpty && i.cbe then [(Ev.empty, ⟨k, par, .tag i kids.length⟩)]
+    else (Ev.start, ⟨k, par, .tag i kids.length⟩) ::
+      (specEventsL (some k) (some i.name) (k + 1) kids ++ [(Ev.stop, ⟨k, par, .tag i kids.length⟩)])
+  | .str c s => [(Ev.string, ⟨k, par, .str c s pname⟩)]
+def specEventsL (par : Option Nat) (pname : Option PStr) (k : Nat) : List Node → List (Ev × Item)
+  | [] => []
+  | n :: ns => specEvents par pname k n ++ specEventsL par pname (k + (flatten par pname k n).length) ns
+end
+
 /-- the children of a node (`[]` for a string) -/
 def Node.kids : Node → List Node
   | .tag _ ks => ks
